@@ -93,7 +93,8 @@ func SpecSplit(p Parser) bool       { panic("abstract spec function") }
 // ---- form - 00: the low 6 bits; 01: 14 bits, low 6 bits first (big-endian); 11: a special
 // ---- encoding named by the low 6 bits; 10: 0x80 a 32-bit and 0x81 a 64-bit big-endian length
 // ---- follow, every other 10xxxxxx byte is invalid. The input is an abstract byte stream:
-//   SpecIn(k)  the k-th byte of the reader's input;  rdbAt  how many bytes have been taken
+// SpecIn(k) is the k-th byte of the reader's input; the ghost rdbAt counts the bytes taken.
+
 func SpecIn(k uint64) uint8 { panic("abstract spec function") }
 
 //@ spec SpecIn abstract
@@ -140,10 +141,29 @@ func SpecIn(k uint64) uint8 { panic("abstract spec function") }
 //@   trusted abstract input: takes the next four bytes of the stream, least significant first
 //@   modifies rdbAt
 //@   ensures next_four_bytes: err == nil ==> v == uint32(SpecIn(old(rdbAt))) | uint32(SpecIn(old(rdbAt) + 1)) << 8 | uint32(SpecIn(old(rdbAt) + 2)) << 16 | uint32(SpecIn(old(rdbAt) + 3)) << 24 && rdbAt == old(rdbAt) + 4
-//@ func RdbReader.ReadBytes(self, n) (p, err)
-//@   trusted abstract input: takes the next n bytes of the stream
-//@   modifies rdbAt
-//@   ensures next_n_bytes: err == nil ==> len(p) == n && rdbAt == old(rdbAt) + uint64(n) && (forall i int :: 0 <= i && i < n ==> p[i] == SpecIn(old(rdbAt) + uint64(i)))
+//@ func RdbReader.readFull(self, p) (err)
+//@   trusted abstract input: fills p with the next len(p) bytes of the stream
+//@   modifies elems(p), rdbAt
+//@   ensures next_bytes: err == nil ==> rdbAt == old(rdbAt) + uint64(len(p)) && (forall i int :: 0 <= i && i < len(p) ==> p[i] == SpecIn(old(rdbAt) + uint64(i)))
+// ReadBytes: a length read from the snapshot is allocated up front only up to rdbEagerReadLimit; a
+// longer one is merely claimed (one altered byte can make it 2^47, an allocation the process does not
+// survive) and is read into a buffer that grows with the bytes that are really there. No allocation
+// size out of range, for any n. (The content of a string longer than the limit is not decided:
+// io.CopyN / bytes.Buffer are outside the subset.)
+//@ func io.CopyN(dst, src, n) (written, err)
+//@   trusted library contract (abstract)
+//@   modifies heap, rdbAt
+//@ func bytes.Buffer.Bytes(self) (b)
+//@   trusted library contract (abstract)
+//@   modifies nothing
+//@ func RdbReader.ReadBytes
+//@   arith bv
+//@   nopanic
+//@   properties C03 C04
+//@   replay rdb_alteredLength
+//@   requires nonnil: r != nil
+//@   modifies heap, rdbAt
+//@   ensures next_n_bytes: result1 == nil && n <= 1048576 ==> len(result0) == n && rdbAt == old(rdbAt) + uint64(n) && (forall i int :: 0 <= i && i < n ==> result0[i] == SpecIn(old(rdbAt) + uint64(i)))
 //@ func RdbReader.ReadInt8
 //@   arith bv
 //@   properties C03
@@ -177,7 +197,7 @@ func SpecIn(k uint64) uint8 { panic("abstract spec function") }
 //@   arith bv
 //@   properties C03
 //@   requires nonnil: r != nil
-//@   modifies rdbAt
+//@   modifies heap, rdbAt
 //@   ensures a_plain_string_is_its_length_and_then_its_bytes: result1 == nil && SpecIn(old(rdbAt)) >> 6 == 0 ==> len(result0) == int(SpecIn(old(rdbAt)) & 0x3f) && rdbAt == old(rdbAt) + 1 + uint64(SpecIn(old(rdbAt)) & 0x3f) && (forall i int :: 0 <= i && i < len(result0) ==> result0[i] == SpecIn(old(rdbAt) + 1 + uint64(i)))
 //@   ensures int8_stands_for_its_decimal_text: result1 == nil && SpecIn(old(rdbAt)) == 0xC0 ==> string(result0) == types.SpecDec(int64(int8(SpecIn(old(rdbAt) + 1)))) && rdbAt == old(rdbAt) + 2
 //@   ensures int16_stands_for_its_decimal_text: result1 == nil && SpecIn(old(rdbAt)) == 0xC1 ==> string(result0) == types.SpecDec(int64(int16(uint16(SpecIn(old(rdbAt) + 1)) | uint16(SpecIn(old(rdbAt) + 2)) << 8))) && rdbAt == old(rdbAt) + 3
